@@ -431,7 +431,9 @@ def check_sequence(W, pool, seq, R, case_extra=None):
         if timed_out(got) or timed_out(fresh):
             budget = lcd_budget(req)
             if budget == 0:
+                # cut short by request: what such an analysis reports depends on the clock and is not judged at all
                 R.count("elements_cut_short_at_once")
+                continue
             if timed_out(got) and not timed_out(fresh) and budget > 0 and got.get("elapsed", 1e9) < 0.8 * budget:
                 # the whole analysis took less than the budget, so the search cannot have used it up: the budget was not
                 # counted from the start of this analysis
